@@ -60,7 +60,7 @@ func init() {
 		Must: []string{"all_c_workers_busy", "all_workers_busy"}}
 	props["C09"] = &propCfg{Parts: []part{{Engine: "flowsim", Quick: 40000, Thorough: 1000000}},
 		Rule: flowRule + "non-trivial = at least three callback invocations and a failing item; batches up to 16 items, concurrency 0..4, stop and continue modes, random schedules and 'failure handled first' schedules (in-flight items parked, failing worker boosted)",
-		Must: []string{"items_in_flight_together"}}
+		Must: []string{"items_in_flight_together", "failure_handled_first_schedule", "item_started_on_other_worker_after_failure"}}
 }
 
 func init() {
